@@ -74,8 +74,9 @@ Project(o) ==
                        ELSE 0]],
    near |-> {}, trajfin |-> (\A n \in 1..(o.nit + 1) : PDm(o, n) # NaN), caller |-> TRUE, negsteps |-> 0]
 
-Done == pc = "idle" /\ hist # <<>>
 Lst  == hist[Len(hist)]
+Done == pc = "idle" /\ hist # <<>> /\ Lst.op # "legacy"
+DoneL == pc = "idle" /\ hist # <<>> /\ Lst.op = "legacy"
 
 (* C07 on every completed call *)
 InvC07_advance == Done => C!C07_advance(Project(Lst))
@@ -114,6 +115,33 @@ InvC08_monitors == Done => C!C08_monitors(Project(Lst))
 InvC08_counters == Done => C!C08_counters(Project(Lst))
 
 -----------------------------------------------------------------------------
+(* solve_legacy: scenario space, projection (a result IS a trajectory point) and its contract *)
+LegacyCalls == {MkCall("legacy", "f0", ts, None, None, {}) : ts \in IncLists({0, 1, 2, 4, 5, 8, 9, 12}, 3) \ {<<>>}}
+               \cup {MkCall("legacy", "f0", <<5, 2, 9>>, None, None, {}),      \* a save time EARLIER than the previous one
+                     MkCall("legacy", "f0", <<4, 4>>, None, None, {})}         \* the same time twice
+ScriptsLegacy == {<<a>> : a \in LegacyCalls}
+                 \cup {<<WithCfl(a, 2)>> : a \in {c \in LegacyCalls : Len(c.tsave) = 2}}
+                 \cup {<<Plain, a>> : a \in {c \in LegacyCalls : Len(c.tsave) = 1}}               \* after a solve on the same object
+                 \cup {<<a, MkCall("legacy", "last", <<12, 16>>, None, None, {})>> : a \in {c \in LegacyCalls : Len(c.tsave) = 1}}
+                 \cup {<<a, MkCall("restart", "last", <<>>, None, 2, {})>> : a \in {c \in LegacyCalls : Len(c.tsave) = 1}}
+ProjectL(o) ==
+  [op |-> o.op, t0 |-> o.t0, it0 |-> o.it0, tsave |-> o.tsave, tot |-> o.tot, maxit |-> o.maxit,
+   freqs |-> o.freqs, nit |-> o.nit, totnit |-> o.totnit, itstart |-> o.itstart, tfin |-> o.tfin,
+   traj |-> [n \in 1..Len(o.traj) |-> [t |-> o.traj[n].t, tend |-> o.traj[n].t + o.traj[n].dt]],
+   res |-> [i \in 1..Len(o.res) |->
+              [t |-> o.res[i].t, it |-> o.res[i].it,
+               srcs |-> {n \in 1..(o.nit + 1) : o.res[i].d = PDm(o, n) /\ o.res[i].t = PTm(o, n)},
+               fin |-> o.res[i].d # NaN, isfinal |-> o.res[i].d = o.dfin /\ o.res[i].t = o.tfin]],
+   mon |-> <<>>, near |-> {}, trajfin |-> TRUE, caller |-> TRUE, negsteps |-> 0]
+InvL_count   == DoneL => C!L_count(ProjectL(Lst))
+InvL_times   == DoneL => C!L_times(ProjectL(Lst))
+InvL_ontraj  == DoneL => C!L_ontraj(ProjectL(Lst))
+InvL_forward == DoneL => C!L_forward(ProjectL(Lst))
+InvL_nit     == DoneL => C!L_nit(ProjectL(Lst))
+(* the legacy trajectory between two save times is the reference trajectory of the same CFL steps *)
+InvL_pure == DoneL => \A n \in 1..Lst.nit : Lst.traj[n].dt = Lst.cfl * Dt(prof, PTm(Lst, n))
+
+-----------------------------------------------------------------------------
 (* export: every completed single-call scenario with the specification's own outcome *)
 GenFile == IF "GEN_FILE" \in DOMAIN IOEnv THEN IOEnv.GEN_FILE ELSE ""
 GenLine(o) == ToJson([kind |-> kind, prof |-> prof, op |-> o.op, t0 |-> o.t0, tsave |-> o.tsave,
@@ -132,5 +160,5 @@ HistLine == ToJson([kind |-> kind, prof |-> prof, t0 |-> f0.t,
                         rest |-> [i \in 1..Len(hist[k].res) |-> hist[k].res[i].t],
                         resit |-> [i \in 1..Len(hist[k].res) |-> hist[k].res[i].it],
                         monit |-> [i \in 1..Len(hist[k].mon) |-> hist[k].mon[i].it]]]])
-ExportHist == (Done /\ script = <<>> /\ GenFile # "") => CSVWrite("%1$s", <<HistLine>>, GenFile)
+ExportHist == ((Done \/ DoneL) /\ script = <<>> /\ GenFile # "") => CSVWrite("%1$s", <<HistLine>>, GenFile)
 =============================================================================
